@@ -123,6 +123,10 @@ def build_atom(env, atom):
         return rso.maxof(x[0], 2 * x[1] - 1, 0.25 - 0.5 * x[0])
     if atom == 'minof':
         return rso.minof(x[0], 2 * x[1] - 1, 0.25 - 0.5 * x[0])
+    if atom == 'PWmaxof':
+        return rso.maxof(x[0] + env.z, x[1])
+    if atom == 'PWminof':
+        return rso.minof(x[0] + env.z, x[1])
     if atom == 'Emaxof':
         return E(rso.maxof(x[0] + env.z, x[1]))
     if atom == 'Eminof':
